@@ -16,6 +16,7 @@ import (
 
 func init() {
 	commands["c12"] = runC12
+	commands["c12scan"] = runC12Scan
 	commands["c13"] = runC13
 }
 
@@ -252,6 +253,19 @@ func runC12(c *Ctx, _ []string) {
 				}
 			}
 		}
+		// inputs on which the range coder takes its carry-less underflow renormalisation (range <= 0xFFFF while the interval
+		// straddles a 2^32 boundary; about once per MB of output), collected with c12scan
+		if name == "RANGE" {
+			for _, e := range []struct {
+				k string
+				n int
+				s uint64
+			}{{"runs", 20000, 1011}, {"geometric", 20000, 1026}, {"flat", 20000, 1043}, {"skewed", 20000, 1064}, {"geometric", 20000, 1085},
+				{"runs", 20000, 1089}, {"runs", 20000, 1108}, {"dna", 20000, 1116}, {"skewed", 20000, 1119}, {"dna", 20000, 1133},
+				{"runs", 20000, 1140}, {"flat", 20000, 1149}, {"flat", 60000, 1006}, {"random", 60000, 1009}, {"skewed", 60000, 1009}} {
+				try(name, e.k, e.n, e.s)
+			}
+		}
 		extra := 40 * c.Scale
 		if name == "TPAQ" || name == "TPAQX" || name == "CM" {
 			extra = 8 * c.Scale
@@ -281,6 +295,24 @@ func runC12(c *Ctx, _ []string) {
 		}
 	}
 	c.Stats["distinct_nontrivial"] = nontrivial
+}
+
+// c12scan <codec> <len> <count>: prints the (kind, dataseed) pairs whose round trip fails; used with a seeded change
+// applied to collect inputs that reach a rarely taken path (they are then pinned in runC12's corpus)
+func runC12Scan(c *Ctx, args []string) {
+	name := args[0]
+	var n, cnt int
+	fmt.Sscan(args[1], &n)
+	fmt.Sscan(args[2], &cnt)
+	kinds := []string{"random", "skewed", "text", "geometric", "flat", "dna", "runs"}
+	for i := 0; i < cnt; i++ {
+		for _, k := range kinds {
+			ds := uint64(1000 + i)
+			if what := entropyRoundTrip(name, histBlock(NewRng(ds), n, k), 1<<20); what != "" {
+				fmt.Printf("FAIL %s %s %d %d: %.80s\n", name, k, n, ds, what)
+			}
+		}
+	}
 }
 
 // ------------------------------------------------------------------ C13
